@@ -67,7 +67,7 @@ BOUNDS_DOC = {
     "thorough": "messages<=3, K<=3 frames/message (pairs K<=2, triples mid cut only), <=2 pings, all 2-way splits + bytewise; "
                 "sched M<=2,S<=2, trio R<=1",
 }
-BUDGET = {"quick": 150, "thorough": 1500}
+BUDGET = {"quick": 100, "thorough": 1150}
 
 L = 4
 
